@@ -11,6 +11,9 @@ def touch_workflow(endpoints, graph, spec_hashes):
     def _touch(target):
         spec_hashes.update(target)
         for path in target.flattened_outputs():
+            # A declared output may live in a directory that only the target's
+            # own script would have created.
+            Path(path).parent.mkdir(parents=True, exist_ok=True)
             Path(path).touch(exist_ok=True)
 
     # Post-order traversal (dependencies are touched before their dependents)
